@@ -123,7 +123,8 @@ def _body(data, pos, head, te, cl):
     return dict(method=method, target=target, version=version, fields=fields, body=body, framing=framing), pos
 
 
-def read_requests(data):
+def read_requests(data, through_upgrade=False):
+    """through_upgrade: an Upgrade request the server declines does not end the HTTP/1 stream (CONNECT still does)"""
     msgs, pos = [], 0
     while True:
         try:
@@ -141,7 +142,8 @@ def read_requests(data):
         # a request that asks to close, or switches protocols, ends the HTTP/1 stream
         conn = b",".join(v for k, v in m["fields"] if k.lower() == b"connection").lower()
         toks = {t.strip(b" \t") for t in conn.split(b",")}
-        if m["method"].upper() == b"CONNECT" or (b"upgrade" in toks and any(k.lower() == b"upgrade" for k, _ in m["fields"])):
+        is_upg = b"upgrade" in toks and any(k.lower() == b"upgrade" for k, _ in m["fields"])
+        if m["method"].upper() == b"CONNECT" or (is_upg and not through_upgrade):
             return msgs, "switch", pos
         if b"close" in toks or (m["version"] <= (1, 0) and b"keep-alive" not in toks):
             return msgs, "close", pos
